@@ -442,7 +442,18 @@ int __wrap_pthread_rwlock_init(pthread_rwlock_t *m, const pthread_rwlockattr_t *
 	}
 	return __real_pthread_rwlock_init(m, a);
 }
-int vs_unlock_points;
+int vs_unlock_points; static long trylock_busy; static void vs_event_quiet_busy(int i) { (void) i; trylock_busy++; }
+/* pthread_mutex_trylock: a scheduling point (other threads may take or release the lock first), then the outcome is decided by
+ * the modelled owner: free -> acquired like a lock, held (also by the caller itself) -> EBUSY */
+int __real_pthread_mutex_trylock(pthread_mutex_t *);
+int __wrap_pthread_mutex_trylock(pthread_mutex_t *m) {
+	if (!active || self_id < 0) return __real_pthread_mutex_trylock(m);
+	int i = lock_find(m, 0, 1);
+	vs_point();
+	if (lk[i].owner >= 0) { vs_event_quiet_busy(i); return EBUSY; }
+	lk[i].owner = self_id; held_add(self_id, i, 1);
+	return __real_pthread_mutex_trylock(m);
+}
 int __wrap_pthread_mutex_lock(pthread_mutex_t *m) {
 	if (!active || self_id < 0) return __real_pthread_mutex_lock(m);
 	int i = lock_find(m, 0, 1);
@@ -457,9 +468,10 @@ int __wrap_pthread_mutex_unlock(pthread_mutex_t *m) {
 		vs_event("unlock-not-held %s by t%d owner=t%d", vs_lock_name(i), self_id, lk[i].owner);
 		return EPERM;
 	}
+	if (vs_unlock_points & 2) vs_point();  /* before the unlock: others run while the lock is still held (matters for trylock users) */
 	lk[i].owner = -1; held_del(self_id, i);
 	int r = __real_pthread_mutex_unlock(m);
-	if (vs_unlock_points) vs_point();      /* harnesses that look for accesses made AFTER a lock was dropped: the code up to the next acquisition is not atomic */
+	if (vs_unlock_points & 1) vs_point();      /* harnesses that look for accesses made AFTER a lock was dropped: the code up to the next acquisition is not atomic */
 	return r;
 }
 int __wrap_pthread_rwlock_rdlock(pthread_rwlock_t *m) {
@@ -486,7 +498,7 @@ int __wrap_pthread_rwlock_unlock(pthread_rwlock_t *m) {
 		return EPERM;
 	}
 	int r = __real_pthread_rwlock_unlock(m);
-	if (vs_unlock_points) vs_point();
+	if (vs_unlock_points & 1) vs_point();
 	return r;
 }
 int __wrap_pthread_create(pthread_t *h, const pthread_attr_t *a, void *(*fn)(void *), void *arg) {
@@ -550,7 +562,6 @@ int __wrap_clock_gettime(clockid_t c, struct timespec *ts) {
 
 /* unmodelled primitives: a changed tree must not silently escape the scheduler */
 #define UNMODELLED(name) int __wrap_##name(void) { if (active) vs_abort("unmodelled", #name " is not modelled by vsched"); return ENOSYS; }
-UNMODELLED(pthread_mutex_trylock)
 UNMODELLED(pthread_mutex_timedlock)
 UNMODELLED(pthread_rwlock_tryrdlock)
 UNMODELLED(pthread_rwlock_trywrlock)
